@@ -352,6 +352,28 @@ def merge_conserves_literals(prog, res):
     res.need(R, 2)
 
 
+def confirm_only_compressed_blocks(prog, res):
+    """T3: ZSTD_blockState_confirmRepcodesAndEntropyTables makes the block's repcode history and entropy tables the decoder's
+    starting point for the next block.  The decoder only sees them for a block emitted as a compressed block: after a raw or
+    an RLE block its history is unchanged.  In ZSTD_compressSequences_internal the confirmation must therefore lie on the
+    `compressed size != 1` (not RLE) and `!= 0` (not raw) edges."""
+    R = "T3.confirm-only-compressed-blocks"
+    f = prog.fn("ZSTD_compressSequences_internal")
+    conf = f.call_roots("ZSTD_blockState_confirmRepcodesAndEntropyTables")
+    rle = f.call_roots("ZSTD_rleCompressBlock")
+    raw = f.call_roots("ZSTD_noCompressBlock")
+    res.check(len(conf) == 1 and len(rle) == 1 and len(raw) >= 1, R, "shape", f.loc, "one confirmation, one RLE emitter, raw emitter(s)",
+              "ZSTD_compressSequences_internal: confirmations %d, RLE emitters %d, raw emitters %d" % (len(conf), len(rle), len(raw)))
+    sized = lambda a: "c:ZSTD_entropyCompressSeqStore" in f.anchors(a, depth=3)
+    not_rle = guards.rel_edges(f, sized, "==", lambda b_: const_val(strip_casts(b_)) == 1, truth=False)
+    ok = bool(conf) and bool(not_rle) and f.must_pass(via_edges=not_rle, targets=conf)
+    res.check(ok, R, "not-for-rle", f.loc, "the confirmation is reached only on the `compressed size != 1` edge",
+              "ZSTD_compressSequences_internal confirms repcodes and entropy tables for a block it emits as RLE: the decoder's history does not move for that "
+              "block, the next block's repcodes resolve differently on the two sides and the frame decodes to other bytes")
+    # the same block cannot both be emitted RLE and confirmed: no path from the RLE emitter to the confirmation without starting the next block
+    res.need(R, 2)
+
+
 def run(tier):
     res = Result("C17", tier)
     tus, info = extract(["compress", "common"])
@@ -363,6 +385,7 @@ def run(tier):
     producer_rules(prog, res)
     wide_length_arithmetic(prog, res)
     validated_quantities(prog, res)
+    confirm_only_compressed_blocks(prog, res)
     merge_conserves_literals(prog, res)
     # frozen guards of lib/compress for the error codes this property owns (shared inventory, split by code)
     import json as _json, os as _os
